@@ -408,4 +408,109 @@ theorem canon_inj {hf : HashFn α H} (cf : CollisionFree hf) (f : Nat → α)
       split at this <;> split at this <;> omega
 
 
+/-! ### Positions that are not leaf positions inside the MMR -/
+
+section wrongpos
+variable [DecidableEq H] {N i k : Nat} {L R : List (Nat × Nat)}
+
+/-- a position at or beyond the size never verifies -/
+theorem sound_beyond {hf : HashFn α H} (cf : CollisionFree hf) (c : PeakCtx N i k L R) (f : Nat → α)
+    (e : α) (path : List H) (pos : Nat) (hge : mmr N ≤ pos) :
+    verify hf (rootAt hf f (mmr N) L (up i k, k) R) (mmr N) path e pos = false := by
+  apply Bool.eq_false_iff.2
+  intro hv
+  rw [verify, va_beyond hf _ N _ _ _ hge] at hv
+  have hroot := eq_of_beq hv
+  obtain ⟨P, Ps, hPs, hbag⟩ := forest_map_eq c hf f
+  have hne : ∀ x ∈ P :: Ps, ∀ a b, x ≠ hf.node (mmr N) a b := by
+    intro x hx a b
+    rw [← hPs] at hx
+    obtain ⟨d, hd, rfl⟩ := List.mem_map.1 hx
+    exact nh_ne_node_size cf f (forest_valid d hd) a b
+  have hleafidx : HasIdx hf (hf.leaf (mmr N) e) (mmr N) := Or.inl ⟨e, rfl⟩
+  have hPsidx : ∀ x ∈ P :: Ps, ∃ t, t < mmr N ∧ HasIdx hf x t := by
+    intro x hx
+    rw [← hPs] at hx
+    obtain ⟨d, hd, rfl⟩ := List.mem_map.1 hx
+    have hv := forest_valid d hd
+    exact ⟨mmr d.1 + d.2, (coord_lt_iff hv.1).2 hv.2, nodeHash_hasIdx hf f d.1 d.2⟩
+  rw [hbag] at hroot
+  cases path with
+  | nil =>
+    simp only [List.foldl_nil] at hroot
+    cases Ps with
+    | nil =>
+      simp only [bagNE] at hroot
+      obtain ⟨t, ht, hidx⟩ := hPsidx P (List.mem_cons_self ..)
+      rw [hroot] at hidx
+      have := HasIdx.unique cf hidx hleafidx; omega
+    | cons P1 Ps' => exact absurd hroot.symm cf.leaf_ne_node
+  | cons s1 rest =>
+    simp only [List.foldl_cons] at hroot
+    have hfold : List.foldl (fun acc s => hf.node (mmr N) s acc) (hf.node (mmr N) s1 (hf.leaf (mmr N) e)) rest
+        = rest.reverse.foldr (fun s acc => hf.node (mmr N) s acc) (hf.node (mmr N) s1 (hf.leaf (mmr N) e)) := by
+      rw [List.foldr_reverse]
+    rw [hfold] at hroot
+    obtain ⟨A, R0, R1, R', e1, _, e3⟩ := peel cf (mmr N) _ ⟨_, _, rfl⟩ rest.reverse P Ps hroot.symm hne
+    obtain ⟨_, _, h3⟩ := cf.node_inj e3
+    cases R' with
+    | cons r R'' => exact absurd h3 cf.leaf_ne_node
+    | nil =>
+      simp only [bagNE] at h3
+      obtain ⟨t, ht, hidx⟩ := hPsidx R1 (by rw [e1]; simp)
+      rw [← h3] at hidx
+      have := HasIdx.unique cf hidx hleafidx; omega
+
+/-- the peak above leaf `n` is at least as high as any node `(n, h)` -/
+theorem PeakCtx.height_le (c : PeakCtx N i k L R) {h : Nat} (hh : h ≤ trailingOnes i) : h ≤ k := by
+  apply Classical.byContradiction
+  intro hlt
+  have hk : k ≤ trailingOnes i := by omega
+  have hup := up_of_valid hk
+  have := c.peak_facts.1
+  rw [hup] at this
+  omega
+
+/-- an inner node position never verifies (the element would have to hash like a parent) -/
+theorem sound_nonleaf {hf : HashFn α H} (cf : CollisionFree hf) (c : PeakCtx N i k L R) (f : Nat → α)
+    (e : α) (path : List H) (h : Nat) (hh : h + 1 ≤ trailingOnes i) :
+    verify hf (rootAt hf f (mmr N) L (up i k, k) R) (mmr N) path e (mmr i + (h+1)) = false := by
+  apply Bool.eq_false_iff.2
+  intro hv
+  have hle := c.height_le hh
+  have hup := up_of_valid hh
+  have h0 : cpos (up i (h+1), h+1) = mmr i + (h+1) := by simp [cpos, hup]
+  rw [verify, ← h0] at hv
+  obtain ⟨h1, _⟩ := sound_tree cf c f (k - (h+1)) (h+1) _ path (by omega) (indexed_leaf hf e) hv
+  rw [nodeHash] at h1
+  exact cf.leaf_ne_node h1
+
+end wrongpos
+
+/-! ### From the coordinate lemmas (leaf data `f : Nat → α`) to lists -/
+
+/-- any list is `f 0, …, f (len-1)` for a function `f`, which is how the lemma files index leaves -/
+theorem list_as_fn (xs : List α) (hne : xs ≠ []) :
+    ∃ f : Nat → α, xs = (List.range xs.length).map f ∧ ∀ i (hi : i < xs.length), f i = xs[i] := by
+  obtain ⟨x0, _⟩ := List.exists_mem_of_ne_nil xs hne
+  refine ⟨fun i => xs.getD i x0, list_eq_range_map xs x0, ?_⟩
+  intro i hi
+  simp [List.getD_eq_getElem?_getD, List.getElem?_eq_getElem hi]
+
+/-- everything the lemma files know about leaf `i` of `xs`, in list form -/
+theorem leaf_ctx (hf : HashFn α H) (xs : List α) (i : Nat) (hi : i < xs.length) :
+    ∃ (f : Nat → α) (k : Nat) (L R : List (Nat × Nat)) (_ : PeakCtx xs.length i k L R),
+      f i = xs[i]
+      ∧ Spec.Mmr.hashes hf xs = allHashes hf f xs.length
+      ∧ Spec.Mmr.root hf xs = some (rootAt hf f (mmr xs.length) L (up i k, k) R) := by
+  have hne : xs ≠ [] := by intro h; subst h; simp at hi
+  obtain ⟨f, hxs, hf_i⟩ := list_as_fn xs hne
+  obtain ⟨k, L, R, c⟩ := exists_peakCtx hi
+  refine ⟨f, k, L, R, c, hf_i i hi, ?_, ?_⟩
+  · conv => lhs; rw [hxs]
+    exact spec_hashes hf f xs.length
+  · conv => lhs; rw [hxs]
+    rw [spec_root]
+    exact bag_forest c hf f (mmr xs.length)
+
 end GV.Pmmr.Co
